@@ -1,6 +1,8 @@
 """C08 - Modbus exception answers surface at once as RequestRejectedException(reason) (DESIGN 3, C08)."""
 from __future__ import annotations
 
+import struct
+
 from .. import world, wire
 from ..explore import Stats, pmap, h
 from ..kernel import KLoop
@@ -79,7 +81,12 @@ def run_k(cfg):
             if head:
                 full = wire.tcp_read_resp(req[:2], 0xF7, bytes(250)) if framing == 'tcp' else wire.rtu_read_resp(0xF7, bytes(250))
                 return [(D0, ('data', full[:head])), (2 * D0, ('data', exc_frame(framing, kind, code, req)))]
-            return [(D0, ('data', exc_frame(framing, kind, code, req)))]
+            f = exc_frame(framing, kind, code, req)
+            if cfg.get('mbap') and framing == 'tcp':
+                # GoodWe firmware fills the MBAP length field unreliably (the library ignores it on purpose for data answers)
+                ln = {'zero': 0, 'echo6': 6, 'plus7': len(f) - 6 + 7, 'minus1': len(f) - 7}[cfg['mbap']]
+                f = f[:4] + struct.pack('>H', ln) + f[6:]
+            return [(D0, ('data', f))]
         return []
     peer = PlanPeer(plan)
     loop = KLoop(peer)
@@ -132,6 +139,8 @@ def job(cfgs):
                 cls = 'after-fragment'
             if cfg.get('raw_prior'):
                 cls += '/after-raw-command-with-the-same-bytes'
+            if cfg.get('mbap'):
+                cls += f"/unreliable-length-field:{cfg['mbap']}"
             if not any(c == clause for c, _ in v2):
                 cls += '/order-dependent'
             out.append(dict(key=f"{clause}/{cfg['transport']}/ka={int(cfg['ka'])}/{cfg['kind']}/after-{min(cfg['k'], 1)}-timeouts/{cls}",
@@ -372,6 +381,13 @@ def run(tier, seed, rep):
                 for code in (1, 2, 3, 6, 11, 0x55):
                     for k in (0, 1):
                         cfgs.append(dict(transport=tr, ka=ka, T=1, R=1, k=k, kind=kind, code=code, raw_prior=True))
+    # Modbus/TCP exception frames whose MBAP length field is not the number of bytes that follow
+    for ka in (False, True):
+        for kind in KINDS:
+            for code in (1, 2, 3, 6, 0x55):
+                for mode in ('zero', 'echo6', 'plus7', 'minus1'):
+                    for k in (0, 1):
+                        cfgs.append(dict(transport='tcp', ka=ka, T=1, R=1, k=k, kind=kind, code=code, mbap=mode))
     # a pending fragment of a read answer must not swallow the exception frame
     for tr in ('udp', 'tcp'):
         for ka in (False, True):
